@@ -28,6 +28,8 @@ def run(r):
         r.model_check('SignalsMC', 'Signals_sim.cfg')   # report through the common path (will not terminate quickly)
     r.transitions += s.generated
     r.replay(drv, s.behaviours, 'Signals', 'simulate')
+    # the same histories on a nanosecond-scale (dyadic) time unit: grid comparisons must not depend on the scale
+    r.replay(None, s.behaviours, 'Signals', 'simulate (time unit 2^-30 s)', parallel=16, factory=SignalsDriver, factory_kw=dict(scale=2.0 ** -30))
     # 4. regression witness of D1 (as-is model: with_times keeps the caller's array): TLC must find the
     #    NoAlias counterexample, and the real code must not exhibit it
     w = r.model_check('SignalsMC', 'Signals_asis.cfg', expect_violation='NoAlias')
